@@ -223,16 +223,18 @@ func TensorFromProto(tp *TensorProto) (tensor.Tensor, error) {
 	dims := getDims(tp)
 
 	nElements := 1
+	nValues := reflect.ValueOf(values).Len()
 
 	for _, dim := range dims {
-		if dim < 1 {
+		// The second test keeps the product within the number of values, so it cannot overflow.
+		if dim < 1 || dim > nValues/nElements {
 			return nil, ErrInvalidShape
 		}
 
 		nElements *= dim
 	}
 
-	if reflect.ValueOf(values).Len() != nElements {
+	if nValues != nElements {
 		return nil, ErrInvalidShape
 	}
 
